@@ -7,6 +7,7 @@ import (
 	"fmt"
 	"os"
 	"path/filepath"
+	"pgregory.net/rapid"
 	"regexp"
 	"sort"
 	"strconv"
@@ -337,6 +338,31 @@ func TestMakeCorpus(t *testing.T) {
 			for _, n := range []int{1, 3, 17, 300, 5000} {
 				b := []byte(r.pre + strings.Repeat(r.open, n) + r.leaf + strings.Repeat(r.close, n) + r.end)
 				add(dec, selOf(r.ty(n)), b, "hostile:"+r.name)
+			}
+		}
+	}
+	// (d) hand-written documents of the refine/ and wrapper/ facets whose target type is in the table
+	inTable := func(ty spec.T) (int, bool) {
+		for i, x := range fuzzTypes {
+			if x.Equal(ty) {
+				return i, true
+			}
+		}
+		return 0, false
+	}
+	for i := 0; i < 400; i++ {
+		in := rapid.Custom(genRefine).Example(i)
+		if sel, ok := inTable(in.Type); ok {
+			if b, err := in.Bytes(); err == nil {
+				add(DMsgpackValue, sel, b, "hand-written:refinement")
+			}
+		}
+		for _, f := range []struct{ format, dec string }{{"json", DJSONValue}, {"msgpack", DMsgpackValue}} {
+			w := rapid.Custom(genWrapper(f.format, f.dec)).Example(i)
+			if sel, ok := inTable(w.Type); ok {
+				if b, err := w.Bytes(); err == nil {
+					add(f.dec, sel, b, "hand-written:wrapper")
+				}
 			}
 		}
 	}
